@@ -222,6 +222,19 @@ theorem admin_only_self_run (fuel : Nat) : ∀ (ops : List Op) (s : State),
       · exact Or.inr ⟨ev, List.mem_append_right _ hm, hv⟩
     · exact Or.inr ⟨ev, List.mem_append_left _ hm, hv⟩
 
+/-- When the inner send to another actor aborts, the Propose/Approve message still succeeds and
+    reports `applied` with a failing code; the pending entry stays deleted (and its id recorded),
+    while the value transfer and everything the callee did by re-entering the wallet are rolled
+    back: the committed state is exactly the state of the send minus the entry. -/
+theorem failed_send_keeps_deletion (sub : Sub) (epoch : Int) (s : State) (id : Nat) (txn : Tx)
+    (children : List Act) (hq : s.threshold ≤ txn.approved.length)
+    (hav : checkAvailable s txn.value epoch = .ok ()) (hto : txn.to ≠ s.self) :
+    (execIfApproved sub epoch s id txn false children).out =
+      .ok ({ s with pending := aerase id s.pending, executed := id :: s.executed },
+           { txId := id, applied := true, codeOk := false }) := by
+  unfold execIfApproved
+  simp [hq, hav, hto]
+
 /-! ### non-vacuity: a concrete wallet, a history with a self-call and a payment -/
 
 /-- 3 signers (11, 12, 13), threshold 2, wallet id 100, 50 attoFIL, locked linearly over 10 epochs
@@ -257,5 +270,38 @@ example : (exec 1 5 (run 1 exWallet [⟨5, .node ⟨11, 0, .propose 7 20 0 []⟩
     (.node ⟨12, 0, .cancel 0 true⟩ true [])).out = .error .forbidden := rfl
 example : ((exec 1 5 (run 1 exWallet [⟨5, .node ⟨11, 0, .propose 7 20 0 []⟩ true []⟩]).1
     (.node ⟨11, 0, .cancel 0 true⟩ true [])).stateOr exWallet).pending = [] := by decide
+
+/-! ### non-vacuity: re-entrancy and rollback -/
+
+/-- 11 and 12 are signers together with wallet-actor 200 (another multisig), threshold 2. -/
+def exNested : State :=
+  { self := 100, signers := [11, 12, 200], threshold := 2, nextId := 0, pending := [],
+    initial := 0, start := 0, duration := 0, balance := 90, executed := [] }
+
+/-- tx 0 pays 40 to account 7 (approved by 11 only); tx 1 calls actor 200 (approved by 11, then 12
+    executes it).  While tx 1's send is running, actor 200 re-enters and approves tx 0, which
+    reaches its quorum and is sent from inside the re-entrant activation. -/
+def exNestedOps (outerOk : Bool) : List Op :=
+  [ ⟨1, .node ⟨11, 0, .propose 7 40 0 []⟩ true []⟩,
+    ⟨1, .node ⟨11, 0, .propose 200 0 2 [5]⟩ true []⟩,
+    ⟨1, .node ⟨12, 0, .approve 1 true⟩ outerOk
+        [ .node ⟨200, 0, .approve 0 true⟩ true [] ]⟩ ]
+
+/-- callee returns ok: both transactions are sent, 40 left the wallet, both ids recorded -/
+example : (run 2 exNested (exNestedOps true)).1.balance = 50 ∧
+    (run 2 exNested (exNestedOps true)).1.pending = [] ∧
+    (run 2 exNested (exNestedOps true)).1.executed = [0, 1] ∧
+    ((run 2 exNested (exNestedOps true)).2.map (·.id)) = [1, 0] := by decide
+
+/-- callee aborts after re-entering: the re-entrant send of tx 0 was issued (it is in the trace)
+    but is rolled back with the callee — tx 0 is pending again with 11's approval only, the 40 are
+    back — while tx 1 stays deleted and the Approve message itself succeeded -/
+example : (run 2 exNested (exNestedOps false)).1.balance = 90 ∧
+    ((run 2 exNested (exNestedOps false)).1.pending.map (fun p => (p.1, p.2.approved))) = [(0, [11])] ∧
+    (run 2 exNested (exNestedOps false)).1.executed = [1] ∧
+    ((run 2 exNested (exNestedOps false)).2.map (·.id)) = [1, 0] := by decide
+
+/-- at call depth 0 the re-entrant activation cannot run -/
+example : ((run 0 exNested (exNestedOps true)).2.map (·.id)) = [1] := by decide
 
 end BA.Multisig
